@@ -43,3 +43,18 @@ Example C18_example :
   = Run "assemble" "p.hera" [("assemble", FTrue); ("--stdout", FTrue); ("--code", FTrue)] /\
   parse_args (fun _ => true) ["debug"; "--stdout"; "p.hera"] = Usage "--stdout is not compatible with the chosen mode.".
 Proof. repeat split. Qed.
+
+(* ---- the two spellings of a valued flag ------------------------------------------------------------------ *)
+From Hera.Proofs Require Import C18_Syntax.
+
+(* where the flag loop meets `--throttle=v` it continues exactly as on the two arguments `--throttle v`
+   (accepted with the same value, or refused with the same message), for every text v — "0" included *)
+Theorem C18_throttle_spellings_agree : forall v r flags pos,
+  scan (("--throttle=" ++ v) :: r) false flags pos = scan ("--throttle" :: v :: r) false flags pos.
+Proof. exact throttle_spellings_agree. Qed.
+Print Assumptions C18_throttle_spellings_agree.
+
+Theorem C18_init_spellings_agree : forall v r flags pos,
+  scan (("--init=" ++ v) :: r) false flags pos = scan ("--init" :: v :: r) false flags pos.
+Proof. exact init_spellings_agree. Qed.
+Print Assumptions C18_init_spellings_agree.
